@@ -12,6 +12,7 @@ CellOf(e) ==
   CASE e.op = "Fmt.PlainTime" -> [ty |-> "PlainTime", t |-> TimeOfV(e.args.v), p |-> PrecOf(e.args)]
     [] e.op = "Fmt.PlainDateTime" -> [ty |-> "PlainDateTime", d |-> Date(e.args.v.y, e.args.v.m, e.args.v.d), t |-> TimeOfV(e.args.v), p |-> PrecOf(e.args)]
     [] e.op = "Fmt.Instant" -> [ty |-> "Instant", i |-> e.args.v, p |-> PrecOf(e.args)]
+    [] e.op = "Fmt.Duration" -> [ty |-> "Duration", D |-> e.args.v, p |-> PrecOf(e.args)]
     [] e.op = "Fmt.ZonedDateTime" -> [ty |-> "ZonedDateTime", i |-> e.args.v.ns, tz |-> Join(e.args.v.tz), p |-> PrecOf(e.args)]
 ModeOf(e) == Get(e.args, "mode", "trunc")
 Exp(e) == CaseFor(CellOf(e), ModeOf(e)).out
